@@ -12,8 +12,8 @@ theorem memoOK_clear (inp : Input) (m : Memo) : MemoOK inp m.clear := by
   intro f pos b ts len h
   simp [Memo.clear, Memo.find?] at h
 
-theorem find_insert (m : Memo) (k k' : MKey) (v : MVal) (x : MVal)
-    (h : (m.insert k v).find? k' = some x) : (k = k' ∧ x = v) ∨ m.find? k' = some x := by
+theorem find_insert (cap : Option Nat) (m : Memo) (k k' : MKey) (v : MVal) (x : MVal)
+    (h : (m.insert cap k v).find? k' = some x) : (k = k' ∧ x = v) ∨ m.find? k' = some x := by
   unfold Memo.insert Memo.find? at h
   unfold Memo.find?
   simp only at h
@@ -23,7 +23,7 @@ theorem find_insert (m : Memo) (k k' : MKey) (v : MVal) (x : MVal)
     left; exact ⟨by simpa using hk, by simpa using h.symm⟩
   · right
     revert h
-    cases hc : m.cap with
+    cases hc : cap with
     | none => simp
     | some size =>
       simp only
@@ -37,18 +37,18 @@ theorem find_insert (m : Memo) (k k' : MKey) (v : MVal) (x : MVal)
           · exact id
       · exact id
 
-theorem memoOK_insert_none {inp : Input} {m : Memo} (h : MemoOK inp m) (k : MKey) :
-    MemoOK inp (m.insert k none) := by
+theorem memoOK_insert_none {inp : Input} {m : Memo} (h : MemoOK inp m) (cap : Option Nat) (k : MKey) :
+    MemoOK inp (m.insert cap k none) := by
   intro f pos b ts len hf
-  rcases find_insert m k (f, pos, b) none _ hf with ⟨_, h2⟩ | h2
+  rcases find_insert cap m k (f, pos, b) none _ hf with ⟨_, h2⟩ | h2
   · simp at h2
   · exact h f pos b ts len h2
 
-theorem memoOK_insert_some {inp : Input} {m : Memo} (h : MemoOK inp m) (f pos : Nat) (b : Bool)
+theorem memoOK_insert_some {inp : Input} {m : Memo} (h : MemoOK inp m) (cap : Option Nat) (f pos : Nat) (b : Bool)
     (ts : List Tree) (len : Nat) (ht : TilesF inp pos ts (pos + len)) :
-    MemoOK inp (m.insert (f, pos, b) (some (ts, len))) := by
+    MemoOK inp (m.insert cap (f, pos, b) (some (ts, len))) := by
   intro f' pos' b' ts' len' hf
-  rcases find_insert m (f, pos, b) (f', pos', b') (some (ts, len)) _ hf with ⟨h1, h2⟩ | h2
+  rcases find_insert cap m (f, pos, b) (f', pos', b') (some (ts, len)) _ hf with ⟨h1, h2⟩ | h2
   · simp at h1 h2
     obtain ⟨rfl, rfl, rfl⟩ := h1
     obtain ⟨rfl, rfl⟩ := h2
@@ -740,12 +740,12 @@ theorem allSpec_succ (g : Grammar) (inp : Input) (hg : GrammarWF g) (n : Nat) (i
           have ht : TilesF inp pos ts q := h1.2.1 rfl
           have hle := Chain.le ht
           refine ⟨?_, fun _ => ht, fun hs => by simp at hs⟩
-          apply memoOK_insert_some h1.1
+          apply memoOK_insert_some h1.1 g.memoCap
           have : pos + (q - pos) = q := by omega
           rw [this]; exact ht
         · rename_i ep st' heq
           rw [heq] at h1
-          exact ⟨memoOK_insert_none h1.1 _, fun _ => trivial, fun _ => trivial⟩
+          exact ⟨memoOK_insert_none h1.1 _ _, fun _ => trivial, fun _ => trivial⟩
         · rename_i st' heq
           rw [heq] at h1
           exact Spec.oof h1.1
